@@ -15,6 +15,7 @@ mod dom_body;
 mod dom_serve;
 mod dom_epoll;
 mod dom_mem;
+mod fuzzdec;
 mod interpose;
 
 /// Counting allocator: live blocks of exactly 64 bytes with 64-byte alignment = live epoll `Handle` records
@@ -94,6 +95,12 @@ fn main() {
                 let code: u16 = rest.trim().parse().unwrap_or(0);
                 let st = khttp::Status::of(code);
                 format!("S {} {}", st.code, util::hex(st.reason.as_bytes()))
+            }
+            // FUZZLINE <target> <hex>: the case line a fuzz input of that target stands for (same decoder as the fuzz target)
+            "FUZZLINE" => {
+                let mut p = rest.splitn(2, ' ');
+                let t = p.next().unwrap_or("");
+                fuzzdec::line_for(t, &util::unhex(p.next().unwrap_or("e").trim()))
             }
             _ => "BAD-DOMAIN".to_string(),
         };
